@@ -128,6 +128,12 @@ def reference(case):
     return out, feats
 
 
+def _coll(groups, opts, salt=0):
+    """the same group numbers as a list, a tuple, a set or a frozenset (the parameters are documented as 'enumerable', e.g. (2,))"""
+    k = (len(opts["include_groups"]) + 2 * len(opts["pool_groups"]) + int(opts["use_current"]) + salt) % 4
+    return [list, tuple, set, frozenset][k](groups)
+
+
 def _read(case, sessions_docs):
     from harness.boot import VERIF
     from shangrla.formats.Dominion import Dominion
@@ -142,13 +148,13 @@ def _read(case, sessions_docs):
                 with open(os.path.join(d, name), "w") as fh:
                     json.dump({"Version": "5.10.50.85", "ElectionId": "gen", "Sessions": part}, fh)
             res = Dominion.read_cvrs_directory(d, use_current=o["use_current"], enforce_rules=o["enforce_rules"],
-                                               include_groups=o["include_groups"], pool_groups=o["pool_groups"])
+                                               include_groups=_coll(o["include_groups"], o), pool_groups=_coll(o["pool_groups"], o, 1))
         else:
             p = os.path.join(d, "export.json")
             with open(p, "w") as fh:
                 json.dump({"Version": "5.10.50.85", "ElectionId": "gen", "Sessions": sessions_docs}, fh)
             res = Dominion.read_cvrs(p, use_current=o["use_current"], enforce_rules=o["enforce_rules"],
-                                     include_groups=o["include_groups"], pool_groups=o["pool_groups"])
+                                     include_groups=_coll(o["include_groups"], o), pool_groups=_coll(o["pool_groups"], o, 1))
     finally:
         shutil.rmtree(d, ignore_errors=True)
     return [(c.id, c.tally_pool, c.pool, {k: {a: (int(b) if not isinstance(b, bool) else b) for a, b in v.items()} for k, v in c.votes.items()}) for c in res]
